@@ -1430,7 +1430,7 @@ class Executor:
         if o.__class__.__name__ == "VCtx":
             from . import lib as _lib
 
-            if attr in _lib.child and attr not in ("formula", "condition"):
+            if attr in _lib.child and attr not in ("formula", "condition", "myid"):
                 return _lib.VCtx(_lib.child[attr](o.t))
             if attr == "text":
                 return VStr(_lib.tok_text(o.t))
